@@ -14,6 +14,16 @@ from props import progs
 KEYS = ("arrays", "cell", "n", "hist", "last_E", "labels", "N", "rng")
 
 
+def same_energy(key, a, b, prog):
+    """ASE's LennardJones sums over a neighbour list whose ORDER depends on the calculator's own history (rebuilt only when atoms moved
+    beyond the skin), so the fresh calculator of a resumed run reproduces the energy to a few ulp, not bitwise.  Energies of that calculator are
+    therefore compared to 1e-12 relative; the harness's own pair potential sums in a fixed order and is compared bit for bit."""
+    if key != "last_E" or prog.get("calc") != "lj" or a is None or b is None:
+        return False
+    x, y = float.fromhex(a), float.fromhex(b)
+    return abs(x - y) <= 1e-12 * max(abs(x), abs(y), 1e-300)
+
+
 def run(res: C.Result):
     rng = random.Random(res.seed)
     C.prove(res, extra_tb=["translator (harness/translate.py, harness/impl/schema.py): simulation and component schemas regenerated from the current source (fail-closed)",
@@ -68,7 +78,7 @@ def run(res: C.Result):
             for j, got in enumerate(rec["got"]):
                 want = ref[kk + j]
                 dist["resumed_steps_compared"] += 1
-                bad = [key for key in KEYS if want.get(key) != got.get(key)]
+                bad = [key for key in KEYS if want.get(key) != got.get(key) and not same_energy(key, want.get(key), got.get(key), c["program"])]
                 if bad:
                     what = bad[0]
                     res.fail(f"restart:{drv}:{what}", f"{drv}: resumed from the file of step {kk}, {j + 1} step(s) later the {what} differ(s) from the uninterrupted run "
